@@ -1,4 +1,4 @@
-import LZ4V.Proofs.FrameDS5
+import LZ4V.Proofs.FrameDS6
 import LZ4V.Properties.C08
 /-!
 # C08 (and the decoding halves of C03 / C19) — `LZ4F_decompress` computes the frame specification, whatever the chunking
@@ -19,7 +19,8 @@ are its consequences for a whole session, i.e. for ANY sequence of calls with AN
 * `valid_frame_decodes` — a frame accepted by the frame specification of `Spec/FrameL.lean` is never rejected and decodes to the specified content.
 
 The specification side `pDFrame` is `Spec/FrameL.lean`'s `pFrame` (header, block loop, checksums) plus skippable frames, with the declared content
-size checked when it is non-zero (all the C tracks and all the property asks).  `every_call_terminates`: the loop of one call always ends.  Not covered by these theorems: that a call which was offered input and room consumes or
+size checked when it is non-zero (all the C tracks and all the property asks).  `every_call_terminates`: the loop of one call always ends.  `staging_buffers_never_overrun`: `header[]` and `tmpIn` are never overrun, incl. a `tmpIn`
+kept from an earlier frame.  Not covered by these theorems: that a call which was offered input and room consumes or
 produces something (observed on every traced call), the physical placement of the 64 KB history (`LZ4F_updateDict`), `skipChecksums`, `LZ4F_getFrameInfo`; the block decoder and the checksum are
 parameters (any function for the checksum, any capacity-respecting function for the decoder).
 -/
@@ -189,6 +190,24 @@ theorem session_never_stuck (E : Env) : ∀ (sched : List (Nat × Nat)) (c : Ctx
       | succ h' => exact ih _ _ _
     | error e => dsimp only; intro hc; cases hc
     | stuck => exact absurd hret ht
+
+/-- **the internal staging buffers are never overrun**: in every context a session (any schedule, any input) reaches from a context at a frame boundary
+    whose buffers are in a state `dstage_init` can have left them in (`MemInv`: true of a fresh context and kept by reset), the bytes staged in
+    `header[]` are at most `LZ4F_HEADER_SIZE_MAX`, the bytes staged in `tmpIn` and the bound of the loop that copies a compressed block into it are at
+    most the size `tmpIn` was allocated with — including when `tmpIn` was allocated for an EARLIER frame with other parameters and kept -/
+theorem staging_buffers_never_overrun (E : Env) (hE : DecBounded E) (c : Ctx) (d input : Bytes) (hr : Ready c d) (hm : MemInv c) (sched : List (Nat × Nat)) :
+    ∀ c' rest' out', (session E c input sched [] = .pending c' rest' out' ∨ session E c input sched [] = .complete c' rest' out') →
+      MemInv c' ∧
+      ((c'.stage = .storeFrameHeader ∨ c'.stage = .getBlockChecksum ∨ c'.stage = .storeSFrameSize) → c'.staged.length ≤ LZ4V.Gen.LZ4F_HEADER_SIZE_MAX) ∧
+      ((c'.stage = .storeBlockHeader ∨ c'.stage = .storeCBlock ∨ c'.stage = .storeSuffix) → c'.staged.length ≤ c'.tmpInCap) ∧
+      (c'.stage = .storeCBlock → c'.tmpInTarget ≤ c'.tmpInCap) := by
+  intro c' rest' out' h
+  have hs := session_mem E hE (fun f => pDFrame E d f input) sched c input [] (sessInv_of_ready E c d input hr) hm
+  have : MemInv c' := by
+    rcases h with h | h <;> (rw [h] at hs; exact hs)
+  exact ⟨this, this.bounds⟩
+
+example : MemInv ({} : Ctx) := memInv_fresh
 
 /-! non-vacuity: a concrete frame (independent blocks, one stored block `abc`, no checksums) fed one byte at a time with one byte of room -/
 def toyEnv : Env := { hash := fun _ => 0, dec := fun _ p cap => if p.length ≤ cap then some p else none }
